@@ -38,6 +38,7 @@ _X_POOL = ["ex1", "oil", "z_ex", "tax"]
 _DESC_POOL = [
     "Output", "Output gap, pct", "Inflation Q/Q", "Long run growth !! \\alpha", "Rate; annualised", "5-year rate (exp.)",
     "Share of x % of y", "Wage # index", "it's a trap", "Policy rate: short", "a=b+c", "Habit [internal]", "", "",
+    "Habit !! \\chi_{1}", "Lagged rate x{-1}, pct", "Term premium \\rho_{t20}", "set {2} of {+3}",
 ]
 
 
@@ -404,6 +405,7 @@ def render_source(spec, rng=None, level=1):
             "shift_blank": coin(0.2),
             "parens": pick(["minimal", "minimal", "mixed", "full"]),
             "spaces": pick(["none", "some", "wide"]),
+            "num_style": pick(["plain", "plain", "sci", "dot"]),
             "pseudo_spelling": int(rng.integers(0, 2)),
             "pseudo_explicit_default": coin(0.3),
         }
